@@ -387,6 +387,22 @@ def run(ctx):
                 ctx.violation('hash-seed-dependent:%s' % c[0],
                               'result differs between PYTHONHASHSEED=0 and PYTHONHASHSEED=%d' % sd,
                               {'call': list(c), 'seed0': short(v), 'other': short(other.get(k_) or 'None')})
+    # histories in fresh processes: the same calls in reversed and shuffled orders (what a call sees first differs)
+    orders = [list(reversed(canon['items']))]
+    for _ in range(3 if thorough else 1):
+        o = list(canon['items'])
+        rng.shuffle(o)
+        orders.append(o)
+    for o in orders:
+        other = fresh_process({'items': o}, 0)
+        for k_, v in base.items():
+            if other.get(k_) != v:
+                c = calls[int(k_[1:])] if k_[0] == 'c' else extra[int(k_[1:])]
+                ctx.violation('history-dependent:%s' % c[0],
+                              'result depends on which calls ran earlier in the process: differs between two fresh '
+                              'processes that run the same calls in different orders',
+                              {'call': list(c), 'canonical_order': short(v), 'other_order': short(other.get(k_) or 'None')})
+    ctx.cov['fresh_process_orders'] = 1 + len(orders)
     # in-process histories: shuffled orders, failing calls interleaved, ONE shared catalog object
     shared = copy.deepcopy(CATALOG)
     cat0 = jdump(proj(shared))
